@@ -29,7 +29,12 @@ structure with the elements named by its own exclusion list removed.  Over every
     repeated key wins", merge keys expanded, unknown tags kept) must make loading / verification fail or change the
     digest shown to GPG; an edit that does not change the denoted play must not change the digest
   - plays that differ only in one code point (lone surrogates, '?', U+FFFD, ...) are refused or get different digests,
-    and the bytes hashed are the strict UTF-8 encoding of the serialisation text.
+    and the bytes hashed are the strict UTF-8 encoding of the serialisation text
+  - the command-line entry point (playbook_verifier/__main__.py, run in-process with stdin/stdout replaced) on documents
+    with several top-level entries, including entries without hosts (an import with vars, only vars / tasks): it exits 0
+    and prints the document only if EVERY entry verifies (signed for its core, not revoked); anything else: nothing printed
+  - histories of loads: 2-4 texts with and without %YAML 1.1 / 1.2 directives and version-sensitive scalars loaded in one
+    process; each text must verify to the digest it gets as the first load of a freshly forked process.
 """
 import base64
 import binascii
@@ -932,7 +937,7 @@ def large_edit_check(obj, pj, idx, ch, tbytes, offset, base_digest):
 def run_large(chk, quick):
     rng = chk.rng
     targets = list(LARGE_FIXED if not quick else LARGE_FIXED[:12] + [65535, 65536, 65537])
-    targets += [rng.randrange(3072, 40960) for _ in range(8 if quick else 120)]
+    targets += [rng.randrange(3072, 40960) for _ in range(6 if quick else 120)]
     targets += [rng.choice([64, 512, 4096]) * rng.randrange(8, 80) + rng.choice([-9, -8, -1, 0, 1, 55, 56]) for _ in range(4 if quick else 60)]
     plays = [gen_large_play(rng, max(3072, min(t, 66000))) for t in targets]
     out = run_driver("C18", ["vplay\t-\t" + wire(p) for p in plays])
@@ -968,7 +973,7 @@ def run_large(chk, quick):
         # (b) sensitivity at offsets spread over the whole serialisation
         spans = plain_spans(p, tbytes)
         done = set()
-        budget = max(12, min(50, 350000 // L)) if quick else 10 ** 9     # an edit of a 64 KiB play costs ~50 ms
+        budget = max(10, min(40, 250000 // L)) if quick else 10 ** 9     # an edit of a 64 KiB play costs ~50 ms
         for k in edit_offsets(rng, L, quick):
             if len(done) >= budget:
                 break
@@ -1048,13 +1053,16 @@ def restore_levels(old):
 
 def do_call(call, level=None):
     """one call of a public entry point -> {'verdict': ..., 'seen': [hex digests GPG was shown, in order]}"""
-    obj = to_ruamel(call["play"])
+    obj = to_ruamel(call["play"]) if "play" in call else None
     doc = call["doc"].encode("utf-8") if call.get("doc") is not None else None
     old = set_levels(level or "default")
     del FakeGPG.seen[:]
     try:
         with Patched(doc):
-            if call["entry"] == "verify":
+            if call["entry"] == "text":
+                o = text_outcome(call["text"])
+                verdict = o[0] + ":" + (",".join(o[1]) if o[0] == "digests" else o[1])
+            elif call["entry"] == "verify":
                 r = pv.verify(obj)
                 verdict = "ok" if r is obj else "returned-other-object"
             elif call["entry"] == "verify_play":
@@ -1292,7 +1300,7 @@ def run_history(chk, h, ref, doc_text):
 
 def run_histories(chk, ref, quick):
     rng = chk.rng
-    n_hist = 75 if quick else 2500
+    n_hist = 60 if quick else 2500
 
     def sign(p):
         if p is None:
@@ -1767,7 +1775,7 @@ SURROGATE_FORMS = ["\ud83d", "\udc00", "\ud800", "\udfff", "?", "�", "", "\U00
 
 def run_text_and_encoding(chk, quick):
     rng = chk.rng
-    n_base = 60 if quick else 1500
+    n_base = 50 if quick else 1500
     n_edits = 9 if quick else 14
     # ---- (1) text edits
     cases, impl, lines = [], [], []
@@ -1951,6 +1959,224 @@ def run_text_and_encoding(chk, quick):
                 seen.setdefault(o[1], (f_, text))
 
 
+# ------------------------------------------------------------------ the command-line entry point and histories of loads
+
+FINDING_DIRECTIVE = "yaml-directive-leak"
+
+
+def run_main(text, doc_bytes):
+    """python -m insights.client.apps.ansible.playbook_verifier, in this process: stdin -> (class, exit status, stdout)"""
+    import runpy
+    saved = sys.stdin, sys.stdout, sys.stderr
+    skip = os.environ.pop("SKIP_VERIFY", None)
+    sys.stdin, sys.stdout, sys.stderr = io.StringIO(text), io.StringIO(), io.StringIO()
+    code, crashed = 0, False
+    try:
+        with Patched(doc_bytes):
+            runpy.run_module(VLOG, run_name="__main__")
+    except SystemExit as e:
+        code = e.code if isinstance(e.code, int) else (0 if e.code is None else 1)
+    except BaseException:
+        code, crashed = 1, True
+    finally:
+        out = sys.stdout.getvalue()
+        sys.stdin, sys.stdout, sys.stderr = saved
+        if skip is not None:
+            os.environ["SKIP_VERIFY"] = skip
+    if crashed:
+        cls = "crash" if out == "" else "crash-after-printing"
+    elif code == 0:
+        cls = "accepted" if out == text + "\n" else "exit-0-but-printed-something-else"
+    elif code == 101:
+        cls = "verr" if out == "" else "rejected-but-printed"
+    else:
+        cls = "exit-%s" % code
+    return cls, code, out
+
+
+def model_verify_line(q, rplain, texts):
+    """protocol line of the model's verify() for play q under revocation document rplain; texts: hex digest -> signed text"""
+    sigtab = []
+    for d in (q, rplain):
+        v = d.get("vars") if isinstance(d, dict) else None
+        s_ = v.get(SIG) if isinstance(v, dict) else None
+        if isinstance(s_, str):
+            try:
+                b = base64.b64decode(s_)
+            except Exception:
+                continue
+            hx_ = b[8:].decode("ascii", "replace")
+            if b.startswith(b"FAKESIG:") and hx_ in texts:
+                sigtab.append((s_, texts[hx_]))
+    rev = rplain.get("revoked_playbooks") if isinstance(rplain, dict) else None
+    hashtab = [(e["hash"], texts[e["hash"]]) for e in (rev or []) if isinstance(e, dict) and e.get("hash") in texts]
+    enc_tab = lambda tab: ",".join(enc(x) + ":" + enc(y) for x, y in tab) if tab else "-"
+    return "verify\t%s\t%s\t%s\t%s\t%s" % (bad_sigs(q, rplain), enc_tab(sigtab), enc_tab(hashtab), wire(rplain), wire(q))
+
+
+def run_main_stream(chk, quick):
+    """multi-entry documents through __main__: accepted iff every top-level entry verifies"""
+    rng = chk.rng
+    n_docs = 70 if quick else 1500
+
+    def sign(p):
+        ans, digest, raw = impl_excl(to_ruamel(p))
+        if digest is None:
+            return None
+        p = copy.deepcopy(p)
+        p["vars"][SIG] = fake_sign(digest)
+        return p, digest, raw.decode("utf-8")
+
+    def without_hosts(p):
+        """an entry that is not an ordinary play: no hosts; an import with vars, or only vars / tasks"""
+        q = dict((k, v) for k, v in p.items() if k != "hosts")
+        q["vars"] = dict(q["vars"])
+        q["vars"][EXCL] = rng.choice(["/vars/insights_signature", "vars/insights_signature", "/vars/insights_signature,/vars/dyn"])
+        q["vars"].setdefault("dyn", "d")
+        shape = rng.choice(["import", "vars-tasks", "vars-only"])
+        if shape == "import":
+            q = dict([("import_playbook", "other.yml")] + [(k, v) for k, v in q.items() if k in ("vars", "name")])
+        elif shape == "vars-only":
+            q = {"vars": q["vars"]}
+        else:
+            q = dict((k, v) for k, v in q.items() if k in ("vars", "tasks", "name"))
+            q.setdefault("tasks", [])
+        return q
+    cases, impl, lines, spans = [], [], [], []
+    for _ in range(n_docs):
+        tpl = rng.choice([["G"], ["G", "E"], ["G", "Uh"], ["H", "HE"], ["N"], ["G", "G2"], ["G", "X"], ["R"], ["G", "R"], ["R", "G"], ["H"],
+                          ["G", "H"], ["G", "N"], ["E"], ["HE"], ["G", "G2", "E"], ["G", "U"], ["Uh"], ["H", "G", "Uh"], ["G", "S"], ["Nh"]])
+        a, b = gen_signed_play(rng), gen_signed_play(rng)
+        if a is None or b is None:
+            continue
+        G, G2, H = sign(a), sign(b), sign(without_hosts(a))
+        if G is None or G2 is None or H is None:
+            continue
+        uni, texts = {}, {}
+        for name, sg in (("G", G), ("G2", G2), ("H", H)):
+            uni[name] = sg[0]
+            texts[binascii.hexlify(sg[1]).decode()] = sg[2]
+        uni["R"] = G2[0] if "G2" not in tpl else G[0]
+        revoked_digest = G2[1] if "G2" not in tpl else G[1]
+        for name, src in (("E", G[0]), ("HE", H[0])):
+            for _try in range(12):
+                k, q = one_edit(rng, src)
+                if isinstance(q, dict) and spec_core(q) != spec_core(src) and isinstance(q.get("vars"), dict) and q["vars"].get(SIG) == src["vars"][SIG] \
+                        and spec_core(q)[0] == "core":
+                    uni[name] = q
+                    break
+        for _try in range(12):
+            k, q = one_edit(rng, G[0])
+            if isinstance(q, dict) and touches_excluded_only(G[0], q) and isinstance(q.get("vars"), dict) and q["vars"].get(SIG) == G[0]["vars"][SIG]:
+                uni["X"] = q
+                break
+        q = copy.deepcopy(G2[0])
+        del q["vars"][SIG]
+        uni["U"] = q
+        q = copy.deepcopy(H[0])
+        del q["vars"][SIG]
+        uni["Uh"] = q
+        uni["N"] = dict((k, v) for k, v in G2[0].items() if k != "vars")
+        uni["Nh"] = {"import_playbook": "other.yml"}
+        uni["S"] = "just a string"
+        if any(n not in uni for n in tpl):
+            continue
+        entries = [uni[n] for n in tpl]
+        rdoc = {"name": "revocation list", "timestamp": 1632510092, "vars": {EXCL: "/vars/insights_signature", SIG: "UExBQ0VIT0xERVI="},
+                "revoked_playbooks": [{"name": "x", "hash": hashlib.sha256(b"other").hexdigest()}]}
+        if "R" in tpl:
+            rdoc["revoked_playbooks"].append({"name": "revoked", "hash": binascii.hexlify(revoked_digest).decode()})
+        _, rd, rraw = impl_excl(to_ruamel(rdoc))
+        rdoc["vars"][SIG] = fake_sign(rd)
+        texts[binascii.hexlify(rd).decode()] = rraw.decode("utf-8")
+        doc_bytes = dump_yaml([to_ruamel(rdoc)]).encode("utf-8")
+        try:
+            rplain = from_ruamel(pv.yaml.load(doc_bytes)[0])
+            text = dump_yaml(to_ruamel(entries))
+            d = denote(text)
+            if d[0] != "ok" or [canon(x) for x in d[1]] != [canon(x) for x in entries]:
+                chk.count("main:document-not-round-tripping")
+                continue
+        except Exception:
+            continue
+        cls, code, out = run_main(text, doc_bytes)
+        want_accept = all(n in ("G", "G2", "H", "X") for n in tpl)
+        chk.case(("main", tuple(tpl), canon(entries[0])), True)
+        chk.count("main:%s/%s" % ("+".join(tpl), cls))
+        case = {"op": "main", "entries": tpl, "text": text, "doc": doc_bytes.decode("utf-8")}
+        if cls == "accepted" and not want_accept:
+            why = [n for n in tpl if n not in ("G", "G2", "H", "X")]
+            chk.failure("the command-line entry point accepted (exit 0, document printed) a document with an entry that must not verify (%s: "
+                        "E/HE edited outside the excluded elements, U/Uh unsigned, N/Nh without vars, R revoked, S not a mapping)" % "+".join(why), case)
+        if cls not in ("accepted", "verr", "crash"):
+            chk.failure("the command-line entry point ended as %s (exit status %s, %d characters on stdout)" % (cls, code, len(out)), case)
+        cases.append({"entries": tpl, "text": text})
+        impl.append(cls)
+        start = len(lines)
+        for n, e in zip(tpl, entries):
+            lines.append(model_verify_line(e, rplain, texts) if isinstance(e, dict) else None)
+        spans.append((start, len(lines)))
+    out = run_driver("C18", [l for l in lines if l is not None])
+    it = iter(out)
+    answers = [next(it) if l is not None else "crash" for l in lines]      # an entry that is not a mapping: verify() has nothing to call .get on
+    model = []
+    for a_, b_ in spans:
+        verdict = "accepted"
+        for ans in answers[a_:b_]:
+            if ans != "ok":
+                verdict = ans
+                break
+        model.append(verdict)
+    chk.compare("command-line entry point: accepted iff every top-level entry verifies by the model", cases, impl, model)
+
+
+YAML_BODIES = [
+    "- name: x\n  hosts: all\n  become: %s\n  vars:\n    insights_signature_exclude: /hosts,/vars/insights_signature\n    insights_signature: UExBQ0VIT0xERVI=\n    mode: %s\n  tasks: []\n",
+    "- name: y\n  hosts: all\n  vars:\n    insights_signature_exclude: /hosts,/vars/insights_signature\n    insights_signature: UExBQ0VIT0xERVI=\n  tasks:\n    - name: t\n      file: {mode: %s, force: %s}\n  <<: {flags: [%s, %s]}\n",
+]
+SENSITIVE = ["yes", "no", "on", "off", "010", "0o10", "1_000", "true", "8", "'yes'", "y", "~", "1:30", "0x10"]
+
+
+def run_load_histories(chk, ref, quick):
+    """2-4 loads in one process, with and without %YAML directives: the digest of a text is a function of the text alone"""
+    rng = chk.rng
+    n = 45 if quick else 800
+    try:
+        for _ in range(n):
+            texts = []
+            pv.load_playbook_yaml("%YAML 1.2\n---\n- reset\n")          # every history starts from the initial reading
+            for _j in range(rng.randint(2, 4)):
+                body = rng.choice(YAML_BODIES)
+                body = body % tuple(rng.choice(SENSITIVE) for _k in range(body.count("%s")))
+                texts.append(rng.choice(["", "", "%YAML 1.1\n---\n", "%YAML 1.1\n---\n", "%YAML 1.2\n---\n"]) + body)
+            if rng.random() < 0.3:
+                texts[-1] = texts[0].split("---\n")[-1]              # the first document again, without its directive
+            refs = ref.run([{"entry": "text", "text": t} for t in texts])
+            for i, (t, want) in enumerate(zip(texts, refs)):
+                got = do_call({"entry": "text", "text": t})
+                chk.case(("loads", tuple(texts[:i + 1])), True)
+                chk.count("loads:%s/%s" % ("directive-" + t[6:9] if t.startswith("%YAML") else "no-directive", got["verdict"].split(":")[0]))
+                if got["verdict"] != want["verdict"] or got["seen"] != want["seen"]:
+                    leak = (not t.startswith("%YAML")) and any(x.startswith("%YAML 1.1") for x in texts[:i])
+                    chk.failure("load %d of %d in one process: the text verifies to %s, loaded first in a fresh process it verifies to %s"
+                                % (i + 1, len(texts), got["verdict"][:40], want["verdict"][:40]),
+                                {"op": "loads", "texts": texts}, finding=FINDING_DIRECTIVE if leak else None)
+        # witness of the known finding
+        body = YAML_BODIES[0] % ("yes", "010")
+        want = ref.run([{"entry": "text", "text": body}])[0]
+        do_call({"entry": "text", "text": "%YAML 1.1\n---\n" + body})
+        got = do_call({"entry": "text", "text": body})
+        rep = got["verdict"] != want["verdict"]
+        chk.witnesses.append({"finding": FINDING_DIRECTIVE, "reproduces": rep, "fresh": want["verdict"][:24], "after a %YAML 1.1 document": got["verdict"][:24]})
+        if rep:
+            chk.finding_reproduced(FINDING_DIRECTIVE)
+    finally:
+        try:
+            pv.load_playbook_yaml("%YAML 1.2\n---\n- reset\n")        # leave this process's loader in its initial reading
+        except Exception:
+            pass
+
+
 # ------------------------------------------------------------------ the check
 
 class Pool(object):
@@ -2021,6 +2247,8 @@ def run(chk):
                 "document, tags, other scalar styles, comments / white space) through load_playbook_yaml, judged against an independent "
                 "last-value-wins, merge-expanding reading of the text; plus plays that differ only in one code point among lone surrogates, "
                 "'?', U+FFFD and valid characters; "
+                "plus multi-entry documents (good, edited, unsigned, without vars, without hosts, revoked, not a mapping) through the "
+                "command-line entry point, and histories of 2-4 loads with %YAML directives against a fresh process per load; "
                 "non-trivial = distinct canonical play whose exclusion succeeds (a digest exists)")
     chk.assumptions = [
         "SHA-256 is treated as injective (the theorems are about the serialised text; the harness compares hash_play with hashlib on the model's text)",
@@ -2041,8 +2269,8 @@ def run(chk):
 def _run(chk, ref):
     rng = chk.rng
     quick = chk.tier == "quick"
-    n_vals = 3000 if quick else 60000
-    n_plays = 800 if quick else 10000
+    n_vals = 2500 if quick else 60000
+    n_plays = 700 if quick else 10000
     n_edits = 5 if quick else 8
     n_verify = 350 if quick else 4000
     chk.lean()
@@ -2292,6 +2520,10 @@ def _run(chk, ref):
     # ---------------- stream 7: the TEXT entry point (edits of the YAML text) and strings UTF-8 cannot encode
     run_text_and_encoding(chk, quick)
 
+    # ---------------- stream 8: the command-line entry point on multi-entry documents; histories of loads
+    run_main_stream(chk, quick)
+    run_load_histories(chk, ref, quick)
+
     # ---------------- regression witnesses of the repaired defect 5a7421c (non-string list, non-mapping vars)
     for c in corpus:
         if c.get("op") == "vplay":
@@ -2329,6 +2561,28 @@ def replay(data):
         else:
             check_text_pair(col, c["text0"], c["text1"], c.get("edit"))
             bad = bool(col.failures)
+        print("property violated on this input" if bad else "property holds on this input")
+        return 1 if bad else 0
+    if op == "main":
+        cls, code, out = run_main(c["text"], c["doc"].encode("utf-8"))
+        want = all(n in ("G", "G2", "H", "X") for n in c["entries"])
+        print("entries %s: the entry point ended as %s (exit status %s, %d characters printed); every entry verifies: %s" % (
+            "+".join(c["entries"]), cls, code, len(out), want))
+        bad = (cls == "accepted" and not want) or cls not in ("accepted", "verr", "crash")
+        print("property violated on this input" if bad else "property holds on this input")
+        return 1 if bad else 0
+    if op == "loads":
+        ref = RefServer()
+        try:
+            refs = ref.run([{"entry": "text", "text": t} for t in c["texts"]])
+            bad = False
+            for i, (t, want) in enumerate(zip(c["texts"], refs)):
+                got = do_call({"entry": "text", "text": t})
+                print("load %d (%s): %s; first in a fresh process: %s" % (i + 1, t.split("\n")[0][:12] if t.startswith("%YAML") else "no directive",
+                                                                         got["verdict"][:40], want["verdict"][:40]))
+                bad = bad or got["verdict"] != want["verdict"]
+        finally:
+            ref.close()
         print("property violated on this input" if bad else "property holds on this input")
         return 1 if bad else 0
     if op == "text-equal":
